@@ -1569,7 +1569,7 @@ func (n *Var) String() string {
 	s.WriteString("var ")
 	for i, ident := range n.Lhs {
 		if i > 0 {
-			s.WriteString(" ")
+			s.WriteString(", ")
 		}
 		s.WriteString(ident.Name)
 	}
@@ -1580,7 +1580,7 @@ func (n *Var) String() string {
 		s.WriteString(" = ")
 		for i, value := range n.Rhs {
 			if i > 0 {
-				s.WriteString(" ")
+				s.WriteString(", ")
 			}
 			s.WriteString(value.String())
 		}
